@@ -221,6 +221,11 @@ def spend_cases(ctx, rnd, quick):
     add("spk-long-push", P.push(b"\x55" * 520) + b"\x75", b"\x51")
     add("sig-long-push", b"\x75\x51", P.push(b"\x66" * 516))
     add("p2sh-without-flag", p2sh(red), b"\x51\x52" + P.push(red), flags=0)
+    # pay-to-script-hash is not recursive: a redeem script that is itself of the P2SH shape is an ordinary script (its preimage stays data)
+    inner = bytes.fromhex("5152935387")
+    red2 = p2sh(inner)
+    add("p2sh-redeem-of-p2sh-shape", p2sh(red2), P.push(inner) + P.push(red2))
+    add("p2sh-redeem-of-p2sh-shape-mismatch", p2sh(red2), P.push(b"\x51") + P.push(red2))
     # the redeem script pushed with every push encoding (the longer ones are non-minimal: allowed with MINIMALDATA off)
     NOMIN = R.STD & ~(1 << FB["MINIMALDATA"])
     for enc_name, enc in (("pushdata1", bytes([0x4c, len(red)])), ("pushdata2", bytes([0x4d]) + len(red).to_bytes(2, "little")), ("pushdata4", bytes([0x4e]) + len(red).to_bytes(4, "little"))):
